@@ -186,8 +186,13 @@ def check_request(acc, h, app, cfg, prefix, segs, defect, query, method, sigkey,
     exp, eff = expected(cfg, prefix, raw_path, method, literal)
     case = {'cfg': list(cfg), 'segs': segs, 'defect': defect, 'query': query, 'method': method, 'script_name': script_name}
     del h.seen[:]
-    env0 = wsgi.make_environ(raw_path, method, query=query)
-    env0['SCRIPT_NAME'] = script_name
+    if script_name == '<dev-server>':
+        # the request line goes through clastic's own development server code (its request handler builds the environ)
+        script_name = ''
+        env0 = dev_server_environ(raw_path, method, query)
+    else:
+        env0 = wsgi.make_environ(raw_path, method, query=query)
+        env0['SCRIPT_NAME'] = script_name
     res = wsgi.call(app, None, environ=env0)
     acc.evaluated += 1
     acc.transitions += 1
@@ -269,6 +274,64 @@ def check_request(acc, h, app, cfg, prefix, segs, defect, query, method, sigkey,
             bad('status', 'expected %s' % exp['status'])
 
 
+class _FakeServer(object):
+    ssl_context = None
+    multithread = False
+    multiprocess = False
+    server_address = ('localhost', 80)
+    shutdown_signal = False
+
+
+def dev_server_environ(raw_path, method, query):
+    import io
+    import http.client
+    from urllib.parse import quote
+    from clastic._werkzeug_serving import WSGIRequestHandler
+    hd = WSGIRequestHandler.__new__(WSGIRequestHandler)
+    hd.server = _FakeServer()
+    hd.command = method
+    hd.request_version = 'HTTP/1.1'
+    hd.client_address = ('127.0.0.1', 50000)
+    hd.rfile = io.BytesIO(b'')
+    hd.headers = http.client.HTTPMessage()
+    hd.headers['Host'] = 'localhost'
+    hd.path = quote(raw_path.encode('utf-8'), safe='/') + ('?' + query if query else '')
+    env = hd.make_environ()
+    env.setdefault('wsgi.errors', io.StringIO())
+    return env
+
+
+def check_history(acc, h):
+    """A GET-only branch route followed by a POST-only leaf route that matches the same paths: whatever was asked
+    before (405s included), every request is answered as the table says."""
+    import itertools
+    from clastic import Application, GET, POST
+    from werkzeug.wrappers import Response
+    table = [{'pattern': '/x/', 'methods': ['GET'], 'behaviour': 'answer'},
+             {'pattern': '/<s>', 'methods': ['POST'], 'behaviour': 'answer'}]
+    reqs = [('PUT', '/x'), ('POST', '/x'), ('GET', '/x'), ('DELETE', '/x/'), ('POST', '/x/')]
+    for seq in itertools.permutations(reqs, 4):
+        app = Application([GET('/x/', lambda: Response('branch')), POST('/<s>', lambda s: Response('leaf ' + s))])
+        for j, (method, path) in enumerate(seq):
+            exp = D.dispatch(table, M.REDIRECT, path, method)
+            res = wsgi.call(app, path, method)
+            acc.evaluated += 1
+            acc.transitions += 1
+            acc.validated += 1
+            acc.outcome('history:%s' % exp['kind'])
+            ok = res.raised is None
+            if ok and exp['kind'] == 'redirect':
+                ok = res.code in (301, 302, 303, 307, 308)
+            elif ok and exp['kind'] == 'route':
+                ok = res.code == 200 and res.body == (b'branch' if exp['index'] == 0 else b'leaf x')
+            elif ok:
+                ok = res.code == exp['status']
+            if not ok:
+                acc.violation('C07:history:%s' % exp['kind'], 'after %r the request %s %s was answered %s %r (raised %r), the table '
+                              'says %s' % (list(seq[:j]), method, path, res.status, (res.body or b'')[:40], res.raised, exp),
+                              {'history': [list(x) for x in seq[:j + 1]]})
+
+
 def sigkey(segs, query):
     f = []
     if any(c in s for s in segs for c in '?#%;&= ') or any(ord(c) > 127 for s in segs for c in s):
@@ -311,6 +374,12 @@ def shard(tier, i, n, seed):
                 if query in ('', 'x=1'):
                     # the application served below a mount point
                     check_request(acc, h, app, cfg, prefix, segs, defect, query, 'GET', sigkey, '/mount')
+                # (a request target that begins with '//' is a network-path reference for the vendored server code:
+                # its first segment becomes the host - such a request does not reach the route, outside C07)
+                if query in ('', 'x=1', 'x=%3F&y=a+b', 'a=%C3%A9&&b') and defect != 'leading-double':
+                    check_request(acc, h, app, cfg, prefix, segs, defect, query, 'GET', sigkey, '<dev-server>')
+        if wi == 0:
+            check_history(acc, h)
         if wi % 41 == 0:
             acc.sample({'config': list(cfg), 'defect': defect, 'example_path': render_path(seg_tuples(cfg[0], tier)[-1], defect),
                         'queries': len(queries), 'methods': len(ALL_METHODS)})
@@ -321,7 +390,8 @@ def space_size(tier):
     total = 0
     for cfg in configs():
         total += len(DEFECTS) * len(seg_tuples(cfg[0], tier)) * (len(QUERIES) * len(ALL_METHODS) + 2)
-    return total
+        total += (len(DEFECTS) - 1) * len(seg_tuples(cfg[0], tier)) * 4       # through the development server code
+    return total + 120 * 4
 
 
 def finish(tier, merged, results):
@@ -342,6 +412,11 @@ def replay(case):
     common.setup_repo()
     acc = common.Acc()
     h = Harness()
+    if 'history' in case:
+        check_history(acc, h)
+        if acc.violations:
+            return False, acc.violations[0]['desc']
+        return True, 'ok'
     cfg = tuple(case['cfg'])
     app, prefix = h.build(cfg)
     check_request(acc, h, app, cfg, prefix, case['segs'], case['defect'], case['query'], case['method'], sigkey,
